@@ -3,6 +3,7 @@ package main
 import (
 	"encoding/json"
 	"fmt"
+	"strings"
 	"time"
 )
 
@@ -250,7 +251,10 @@ func candidates(sc *Scenario, last *Result) []*Scenario {
 	// fewer active optional sites
 	for name := range sc.Sites {
 		name := name
-		if name == "prod" || name == "close" || name == "start" || name == "caller" || name == "eval.pre" || name == "eval.post" {
+		// sites that park library goroutines stay: removing one hands that
+		// goroutine back to the Go scheduler and the replay stops being exact
+		if name == "prod" || name == "close" || name == "start" || name == "caller" || name == "eval.pre" || name == "eval.post" ||
+			strings.HasPrefix(name, "cons.") || name == "go.start" || name == "worker.start" || name == "mc.sent" {
 			continue
 		}
 		add(func(c *Scenario) bool {
@@ -330,6 +334,43 @@ func minimise(pl *plan, v *violation, budget time.Duration) (*violation, []strin
 			nv.Ref, nv.RefDig, nv.Sc = cur.Ref, cur.RefDig, c
 			cur = *nv
 		}
+	}
+	// the replay must be exact: three fresh processes, same class and trace hash
+	stable := func(sc *Scenario) (int, *violation) {
+		n := 0
+		var first *violation
+		for i := 0; i < 3; i++ {
+			nv, herr := reproduce(pl, sc, cur.Ref)
+			if herr == "" && nv != nil && nv.Class == v.Class && (first == nil || nv.Trace == first.Trace) {
+				n++
+				if first == nil {
+					first = nv
+				}
+			}
+		}
+		return n, first
+	}
+	n, _ := stable(cur.Sc)
+	if n < 3 {
+		// hand every library goroutine of the scenario to the simulator
+		c := cloneScenario(cur.Sc)
+		for _, g := range c.Groups {
+			for _, j := range g {
+				for _, s := range sinkSites(j.Sink) {
+					c.Sites[s] = 1
+				}
+			}
+		}
+		c.Sites["go.start"] = 1
+		if n2, nv := stable(c); n2 == 3 && nv != nil {
+			nv.Ref, nv.RefDig, nv.Sc = cur.Ref, cur.RefDig, c
+			cur = *nv
+			log = append(log, fmt.Sprintf("replay was not exact (%d/3); all sink hooks switched on: 3/3", n))
+		} else {
+			log = append(log, fmt.Sprintf("replay reproduces %d/3 times (with all hooks on: %d/3): the failing code leaves a goroutine outside the simulator's control", n, n2))
+		}
+	} else {
+		log = append(log, "replay verified 3/3 in fresh processes (same class, same trace hash)")
 	}
 	return &cur, log, changed
 }
